@@ -11,7 +11,13 @@ const Instrumented = true
 
 func init() {
 	pongo2.VerifYield = func() {
-		if tc := CurrentTask(); tc != nil {
+		// (once a task has been found blocked in a synchronisation primitive, tasks are
+		// identified by goroutine id, which is far too slow to do at every statement:
+		// forced pre-emption is then off for the rest of the phase)
+		if tearingDown.Load() {
+			return
+		}
+		if tc := running.Load(); tc != nil {
 			tc.YieldPoint()
 		}
 	}
